@@ -326,8 +326,8 @@ class Prop(fw.PropBase):
         '(precondition margin_ok; blacklisted_binning is C17\'s subject: inputs on which its output violates this are counted, '
         'reported and not enforced in the "exposed" stream)',
         'fragment extent (all reads and the site coordinate) at most L (frag_ok)',
-        'contig-per-process: the job list names every contig with reads exactly once (C05\'s subject, defect D8; D8-exposed '
-        'layouts are a separately reported stream)',
+        'contig-per-process: the job list names every contig with reads exactly once (C05\'s subject; a job list that does not is '
+        'reported as a violation on main-stream inputs)',
         'region mode writes only molecules with a site inside [0, len) of a tiled contig (covered_mol); molecules without any '
         'site are not written by region tasks (C08_siteless_region; finding D11)',
     ]
@@ -418,11 +418,8 @@ class Prop(fw.PropBase):
                              'bp_per_job': rng.choice([1, B, 2 * B, 3 * B + 1, 10 ** 6]), 'use_pool': False, 'n_threads': 1})
             runs.append({'mode': 'tiled', 'bp_per_segment': B, 'fragment_size': L, 'bp_per_job': rng.choice([B, 2 * B]),
                          'use_pool': True, 'n_threads': rng.randint(1, 4)})
-            # contig-per-process is D8-safe here only with >= 2 (small) contigs holding reads and no unmapped read
-            used = set(f['contig'] for f in lib['frags'] if f['contig'])
-            used |= set(f['r2']['contig'] for f in lib['frags'] if f['r2'] and isinstance(f['r2'], dict) and 'contig' in f['r2'])
-            if unm == 0 and len(used) >= 2:
-                runs.append({'mode': 'cpp', 'n_threads': rng.randint(1, 4)})
+            # contig-per-process (--multiprocess), with or without unmapped reads
+            runs.append({'mode': 'cpp', 'n_threads': rng.randint(1, 4)})
             cases.append({'stream': 'main', 'lib': lib, 'runs': runs, 'B': B})
         # large contigs: contig-per-process with unmapped reads is D8-safe (every large contig is its own job)
         for k in range(3 if quick else 12):
@@ -434,8 +431,8 @@ class Prop(fw.PropBase):
                     {'mode': 'tiled', 'bp_per_segment': B, 'fragment_size': L, 'bp_per_job': rng.choice([B, 3 * B]),
                      'use_pool': rng.random() < 0.5, 'n_threads': 2}]
             cases.append({'stream': 'main', 'lib': lib, 'runs': runs, 'B': B})
-        # exposed stream: inputs outside the property (fragments longer than the margin) and layouts that hit the open
-        # defect D8 of the contig-per-process job list (C05); enforced only where the precondition of C08_equiv holds
+        # fragments longer than the margin (outside the property: reported, enforced only where the precondition of
+        # C08_equiv holds) and the contig layouts that used to hit defect D8 of the contig-per-process job list
         for k in range(4 if quick else 20):
             B = rng.choice([500, 1000])
             L = rng.choice([100, 200])
@@ -448,7 +445,9 @@ class Prop(fw.PropBase):
                 contigs = [['chr1', B * 2]] if rng.random() < 0.5 else [['chr1', B * 2], ['chr2', B * 2]]
                 lib = gen_library(rng, B, L, contigs, 12, 2)
                 runs = [{'mode': 'cpp', 'n_threads': 2}]
-            cases.append({'stream': 'exposed:' + kind, 'lib': lib, 'runs': runs, 'B': B})
+            # the contig-per-process job list (D8, C05) is repaired in /repo: small contigs, a lone small contig and
+            # unmapped reads are part of the main stream; only fragments longer than the margin stay outside the property
+            cases.append({'stream': 'main' if kind == 'd8' else 'exposed:' + kind, 'lib': lib, 'runs': runs, 'B': B})
         return cases
 
     # ------------------------------------------------------------------ evaluation of one library run (no model needed)
